@@ -173,7 +173,29 @@ def rule_accumulation(ctx, rule='R17.5'):
         ctx.report(rule, 'diff:passes', 'src/binarydiff.c reb_binary_diff', 'the diff does not make both passes (fields of A in B, fields of B not in A)')
     # every member of struct reb_particle that is not a rewritten pointer is compared by reb_particle_diff
     recs = layout.record_layouts()
-    reads = {y['name'] for y in walk(cfront.body(tu.func('reb_particle_diff'))) if y.get('kind') == 'MemberExpr'}
+    # "compared" = an (in)equality whose operands read the same member of the two different parameters
+    pfn = tu.func('reb_particle_diff')
+    params = [x.get('id') for x in pfn.get('inner', []) if x.get('kind') == 'ParmVarDecl']
+
+    def _side(e):
+        e = strip(e)
+        if e.get('kind') != 'MemberExpr':
+            return None
+        b = strip(e['inner'][0])
+        if b.get('kind') == 'DeclRefExpr':
+            return (b.get('referencedDecl', {}).get('id'), e['name'])
+        return None
+    reads = set()
+    for y in walk(cfront.body(pfn)):
+        if y.get('kind') == 'BinaryOperator' and y.get('opcode') in ('!=', '=='):
+            a, b = _side(y['inner'][0]), _side(y['inner'][1])
+            if a and b:
+                n += 1
+                if a[1] == b[1] and a[0] != b[0] and {a[0], b[0]} <= set(params):
+                    reads.add(a[1])
+                else:
+                    ctx.report(rule, 'particle_diff:operands:' + a[1], 'src/binarydiff.c:%s reb_particle_diff' % line_of(y),
+                               'the comparison %s does not compare one member of the first particle with the same member of the second' % render(y))
     for m in recs['reb_particle'].members:
         n += 1
         if '*' in m.ctype:
